@@ -1,8 +1,9 @@
-// C13 round 2 — boundary coordinate pairs in four dimensions (see C13_pairs.hh).
+// C13 round 2 — boundary coordinate pairs: four dimensions (see C13_pairs.hh).
 #include "C13_pairs.hh"
 using namespace c13;
 VF_SECTION(pairs_4d, 16, 16, 120) {
   bool th = r.thorough();
+  (void)th;
   std::string b;
   std::vector<int> k4 = th ? std::vector<int>{0, 1, 7, 8, 15, 16, 31, 32, 33, 52, 53, 62, 63} : std::vector<int>{0, 31, 32, 63};
   run_pairs<Vector4<int64_t>>(r, boundary_alphabet<int64_t>(k4), 2, b);
